@@ -232,6 +232,21 @@ func initArrayList() {
 		DefWithParameters(1),
 	)
 	Alias(c, "push", "<<")
+	Def(
+		c,
+		"pop",
+		func(vm *Thread, args []value.Value) (value.Value, value.Value) {
+			self := args[0].AsReference().(value.ArrayList)
+			last := self.Length() - 1
+			if last < 0 {
+				return value.Undefined, value.Ref(value.NewIndexOutOfRangeError("-1", 0))
+			}
+			val := self.AtVal(last)
+			self.RemoveAt(last)
+			return val, value.Undefined
+		},
+	)
+	Alias(c, "<<@", "pop")
 
 	Def(
 		c,
